@@ -138,3 +138,36 @@ package shutterservice
 //@   ensures ret0 == 0 ==> acceptedSharesS(sharesOfS(msg))
 //@ func (*DecryptionKeySharesHandler).HandleMessage
 //@   requires h != nil && isSharesMsgS(msg) && acceptedSharesS(sharesOfS(msg))
+//@
+//@ // ---- C15: reorg depth and transaction structure of the syncers ----------------------------------------
+//@ pred isReorgOf(num, parent, synced, hash) := bigval(num) >= 0 - 9223372036854775808 && bigval(num) < 9223372036854775808 && bigval(num) == synced + 1 && parent != hash
+//@ func getNumReorgedBlocks
+//@   requires syncedUntil != nil && header != nil && header.Number != nil && bigval(header.Number) >= 0 && bigval(header.Number) < 9223372036854775808 && syncedUntil.BlockNumber >= 0 && syncedUntil.BlockNumber < 9223372036854775807
+//@   ensures 0 <= ret0 && ret0 <= 10 && ret0 <= syncedUntil.BlockNumber
+//@   ensures ret0 > 0 ==> (bigval(header.Number) == syncedUntil.BlockNumber + 1 && bytes_content(header.ParentHash, 0, 32) != content(syncedUntil.BlockHash))
+//@   ensures (bigval(header.Number) == syncedUntil.BlockNumber + 1 && bytes_content(header.ParentHash, 0, 32) != content(syncedUntil.BlockHash) && syncedUntil.BlockNumber >= 1) ==> ret0 >= 1
+//@ func calculateReorgDepth
+//@   requires status != nil && header != nil && header.Number != nil && bigval(header.Number) >= 0 && bigval(header.Number) < 9223372036854775808 && status.BlockNumber >= 0 && status.BlockNumber < 9223372036854775807 && assumedReorgDepth >= 0
+//@   ensures 0 <= ret0 && ret0 <= assumedReorgDepth && ret0 <= status.BlockNumber
+//@   ensures ret0 > 0 ==> (bigval(header.Number) == status.BlockNumber + 1 && bytes_content(header.ParentHash, 0, 32) != content(status.BlockHash))
+//@   ensures (bigval(header.Number) == status.BlockNumber + 1 && bytes_content(header.ParentHash, 0, 32) != content(status.BlockHash) && status.BlockNumber >= 1 && assumedReorgDepth >= 1) ==> ret0 >= 1
+//@
+//@ // a range is reported as synced (nil) only if its transaction - events and sync position together -
+//@ // committed (ghost event "commit" of pgxpool.BeginFunc, A-tx)
+// A-bindings: the generated contract bindings return non-nil events
+//@ func (*RegistrySyncer).fetchEvents
+//@   trusted
+//@   ensures ret1 == nil ==> (forall i :: 0 <= i && i < len(ret0) ==> ret0[i] != nil)
+//@ func (*RegistrySyncer).filterEvents
+//@   requires forall i :: 0 <= i && i < len(events) ==> events[i] != nil
+//@   ensures forall i :: 0 <= i && i < len(ret0) ==> ret0[i] != nil
+//@   invariant fresh(filteredEvents) || len(filteredEvents) == 0
+//@   invariant forall j :: 0 <= j && j < len(filteredEvents) ==> filteredEvents[j] != nil
+//@ func (*RegistrySyncer).syncRange
+//@   requires s != nil && s.DBPool != nil && s.ExecutionClient != nil && s.Contract != nil
+//@   ensures ret0 == nil ==> evcount("commit") == old(evcount("commit")) + 1
+//@   opt frame = off
+//@ func (*MultiEventSyncer).syncRange
+//@   requires s != nil && s.DBPool != nil && s.ExecutionClient != nil && (forall k Str :: has(s.Processors, k) ==> s.Processors[k] != nil)
+//@   ensures ret1 == nil ==> evcount("commit") == old(evcount("commit")) + 1
+//@   opt frame = off
